@@ -219,7 +219,16 @@ def c20_chord_fingering(ti: int, ci: int, ri: int) -> bool:
             return False
         if _fingers(fing) > 4:
             return False
-    return True
+    # a tighter finger limit filters the same list, whichever of the two is asked for first
+    lim = pick([2, 3, 1], ci % 3)
+    if ri % 2:
+        t2 = pick(GUITARS, (ti + 1) % len(GUITARS))
+        low = t2.find_chord_fingering(names, max_fingers=lim)
+        full = t2.find_chord_fingering(names)
+    else:
+        low = t.find_chord_fingering(names, max_fingers=lim)
+        full = res
+    return low == [a for a in full if _fingers(a) <= lim]
 
 
 def _read(text, t):
